@@ -6,7 +6,7 @@ def generate(G):
     for id, prog, ls, stubs, inexact, tier in [("sigmoid", "Sigmoid", [L([2], "D2")], ("exp",), True, "experimental"),
                                                ("sigmoid1", "Sigmoid", [L([1], "D2")], ("exp",), True, "experimental"),
                                                ("mul", "Mul", [L([2]), L([2])], (), False, "quick"),
-                                               ("exp", "Exp", [L([2])], ("exp",), True, "thorough"),
+                                               ("exp", "Exp", [L([2])], ("exp",), True, "experimental"),
                                                ("relu", "Relu", [L([2], "Sgn")], (), False, "thorough")]:
         G.ob("c17_linear_same_graph_" + id, "C17", "linear_same_graph",
              "c17::linear_same_graph(s, &programs::%s, %s, %s)" % (prog, G.leaves(ls), "true" if inexact else "false"),
